@@ -744,7 +744,7 @@ def run(chk, model_ok):
 
     ncorr = 0
     if model_ok and lits:
-        bad = lib.coq_bad_indices("C16", REQ, "check_case", [l for l, _, _ in lits], chunk=150)
+        bad = lib.coq_bad_indices("C16", REQ, "check_case", [l for l, _, _ in lits], chunk=80)
         ncorr = len(lits)
         shown = 0
         for i in bad:
